@@ -272,6 +272,11 @@ def gen_rules(rnd, idx):
             body += "    { x <= %d; } [%d.0] or { goal d = new %s(x:x); } [%d.0]\n" % (hi, c1, q, c2)
             preds[p]["disj"] = [{"cons": [("leq", ("id", ["x"]), num(hi))], "subs": []}, {"cons": [], "subs": [{"name": "d", "pred": q, "arg": ("id", ["x"])}]}]
         text += "predicate %s(real x) {\n%s}\n" % (p, body)
+    # a sub-predicate with one more argument: its atoms are also instances of the base predicate, but a goal on the base predicate is not one of them
+    subp = None
+    if rnd.random() < 0.35:
+        subp = rnd.choice(order)
+        text += "predicate S0(real x, real y) : %s {\n}\n" % subp
     # a recursive predicate that terminates only by unifying with a fact
     rec = rnd.random() < 0.6
     if rec:
@@ -289,6 +294,14 @@ def gen_rules(rnd, idx):
     for i in range(rnd.randint(0, 3)):
         p = rnd.choice(order)
         stmts.append("fact f%d = new %s(x:%s);" % (i, p, f2(rnd.randint(3, 11))))
+    if subp:
+        vals = [g for g in goals if g["pred"] == subp]
+        v = rnd.randint(3, 9)
+        m = None
+        for st in stmts:
+            if vals and st.startswith("%s %s = new %s(x:" % (vals[0]["kind"], vals[0]["name"], subp)):
+                m = st[st.index("(x:") + 3:st.index(")")]
+        stmts.append("fact q0 = new S0(x:%s, y:5.0);" % (m if m and rnd.random() < 0.8 else f2(v)))
     if rec:
         stmts.append("fact r0 = new R(n:0.0);")
         stmts.append("goal rg = new R(n:%s);" % f2(rnd.randint(1, 3)))
@@ -316,6 +329,7 @@ def gen_sx(rnd, idx):
     atoms = []
     stmts = []
     bounds = []
+    allconst = rnd.random() < 0.15      # every atom with constant start, end and duration: nothing changes after the atoms become active
     for i in range(n):
         typ = "rr" if nrr and rnd.random() < 0.45 else "sv"
         cands = [j for j, x in enumerate(insts) if x["type"] == typ]
@@ -343,14 +357,14 @@ def gen_sx(rnd, idx):
         lo = Fraction(rnd.randint(0, T - 1))
         dur = a["dmin"] + rnd.choice([0, 0, 1, 2])
         hi = lo + dur + rnd.choice([0, 1, 2, 4, 6])
-        mode = rnd.random()
+        mode = rnd.random() if not allconst else 0.0
         a["start_eq"] = a["end_eq"] = a["dur_eq"] = None
         a["lo"] = a["hi"] = None
         a["dur_ge"] = a["dmin"]
         if mode < 0.25:
             a["start_eq"], a["end_eq"] = lo, lo + dur
             args += ["start:%s" % f2(lo), "end:%s" % f2(lo + dur)]
-            if rnd.random() < 0.5:
+            if allconst or rnd.random() < 0.5:
                 args += ["duration:%s" % f2(dur)]
         elif mode < 0.45:
             a["dur_eq"] = dur
@@ -406,7 +420,8 @@ def gen_cyc(rnd, idx):
 def gen_sync(rnd, idx):
     """atoms on different timelines tied together by relative temporal constraints (windows between starts / ends, equalities, precedences): delaying or
     freezing one of them puts pressure on the others.  Built around a planted schedule."""
-    text = "class Arm : StateVariable {\n    predicate Reach(real x) { duration >= 2.0; }\n    predicate Hold(real x) { duration >= 1.0; }\n}\n"
+    bare = rnd.random() < 0.4       # durations stated by constraints between end and start, positions only relative to other atoms
+    text = "class Arm : StateVariable {\n    predicate Reach(real x) { %s}\n    predicate Hold(real x) { %s}\n}\n" % (("", "") if bare else ("duration >= 2.0; ", "duration >= 1.0; "))
     text += "class Cam : Agent {\n    predicate Rec(real k) : Interval { duration >= 1.0; }\n    predicate Snap() : Impulse { }\n}\n"
     text += "Arm arm0 = new Arm();\nArm arm1 = new Arm();\nCam cam = new Cam();\n"
     n = rnd.randint(2, 5)
@@ -423,7 +438,9 @@ def gen_sync(rnd, idx):
             e = s + dmin + rnd.choice([0, 1, 3])
             tcur[inst] = e
             atoms.append({"name": nm, "start": s, "end": e})
-            stmts.append("goal %s = new %s.%s(x:%d.0);" % (nm, inst, pred, i))
+            stmts.append("%s %s = new %s.%s(x:%d.0);" % ("fact" if bare or rnd.random() < 0.3 else "goal", nm, inst, pred, i))
+            if bare:
+                stmts.append("%s.end >= %s.start + %s;" % (nm, nm, f2(dmin)))
         elif c < 0.85:
             s = Fraction(rnd.randint(0, 8))
             e = s + 1 + rnd.choice([0, 1, 2])
@@ -442,7 +459,7 @@ def gen_sync(rnd, idx):
     horizon = max([a.get("end", a.get("at")) for a in atoms])
     for a in atoms:
         p, v = pt(a)
-        if rnd.random() < 0.6:
+        if rnd.random() < (0.15 if bare else 0.6):
             stmts.append("%s >= %s;" % (p, f2(max(Z, v - rnd.choice([0, 0, 1, 2])))))
     for _ in range(rnd.randint(1, 4)):
         if len(atoms) < 2:
@@ -463,3 +480,46 @@ def gen_sync(rnd, idx):
             stmts.append("%s <= %s;" % (pb, pa))
     stmts.append("horizon <= %s;" % f2(horizon + rnd.choice([2, 5, 10, 20])))
     return {"family": "sync", "id": "sync-%d" % idx, "text": text + "\n".join(stmts) + "\n", "planted": True}
+
+
+def gen_task(rnd, idx):
+    """activities that need a resource / a state variable through their RULE: the Use / state-variable atoms are created below a choice point (inside a
+    rule body or one branch of a disjunction), i.e. they are not active when they are created.  Horizon and capacities are chosen so that the activities
+    fit only if the resources are really shared out.  Solvable by construction."""
+    nres = rnd.randint(1, 2)
+    cap = rnd.randint(3, 6)
+    amt = rnd.randint(2, cap)
+    par = cap // amt                      # activities one resource can host at the same time
+    d = rnd.randint(1, 3)
+    k = rnd.randint(2, 5)
+    names = ["crane", "hoist"][:nres]
+    text = "".join("ReusableResource %s = new ReusableResource(%d.0);\n" % (n, cap) for n in names)
+    use_sv = rnd.random() < 0.4
+    if use_sv:
+        text += "class Dock : StateVariable {\n    predicate Busy(real w) { duration >= 1.0; }\n}\nDock dock = new Dock();\n"
+    kind = rnd.choice(["fact", "fact", "goal"])
+    dur = ", duration:%d.0" % d if rnd.random() < 0.6 else ""
+
+    def branch(n):
+        b = "        %s u = new %s.Use(amount:%d.0%s);\n        u.start >= start; u.end <= end;%s\n" % (kind, n, amt, dur, "" if dur else " u.duration >= %d.0;" % d)
+        return b
+    body = "    duration >= %d.0;\n" % d
+    if nres == 1:
+        body += branch(names[0]).replace("        ", "    ")
+    else:
+        c = rnd.random() < 0.4
+        body += "    {\n%s    }%s or {\n%s    }%s\n" % (branch(names[0]), " [%d.0]" % rnd.randint(1, 5) if c else "", branch(names[1]), " [%d.0]" % rnd.randint(1, 5) if c else "")
+    if use_sv and rnd.random() < 0.7:
+        body += "    goal b = new dock.Busy(w:id);\n    b.start >= start; b.end <= end;\n"
+        par_total = 1
+    else:
+        par_total = par * nres
+    text += "predicate Lift(real id) : Interval {\n%s}\n" % body
+    stmts = ["goal l%d = new Lift(id:%d.0);" % (i, i) for i in range(k)]
+    rounds = -(-k // par_total)
+    H = rounds * d + rnd.choice([0, 0, 1, 3])
+    stmts.append("horizon <= %d.0;" % H)
+    rnd.shuffle(stmts)
+    if rnd.random() < 0.3 and k >= 2:
+        stmts.append("l0.end <= l1.start;" if rounds >= 2 else "l0.start <= l1.start;")
+    return {"family": "task", "id": "task-%d" % idx, "text": text + "\n".join(stmts) + "\n", "planted": True}
